@@ -60,9 +60,13 @@ theorem commRules_eq_gen (a b : Ins) (ha : TreeIns a) (hb : TreeIns b) :
     try generalize decide (b.targets.length > 1) = Lb1
     try generalize decide (a.targets.length > 2) = La2
     try generalize decide (b.targets.length > 2) = Lb2
+    try generalize (a.targets.length != 1) = Na1
+    try generalize (b.targets.length != 1) = Nb1
     try generalize namedSet_EXCHANGE_SYMMETRIC_GATES.contains a.name = S
+    try generalize (!a.controls.isEmpty) = Ka
+    try generalize (!b.controls.isEmpty) = Kb
     cases I <;> cases C <;> cases T <;> (try cases La1) <;> (try cases Lb1) <;> (try cases La2) <;> (try cases Lb2) <;>
-      (try cases S) <;> simp
+      (try cases Na1) <;> (try cases Nb1) <;> (try cases S) <;> (try cases Ka) <;> (try cases Kb) <;> simp
   · have hne : (a.name != b.name) = true := by simpa using hn
     rw [if_neg hn, if_pos hne]
     by_cases hlt : b.name < a.name
